@@ -118,6 +118,10 @@ def main():
     ctx = C.Ctx(pid, args.tier, seed)
     os.makedirs(os.path.join(C.VERIF, 'evidence'), exist_ok=True)
     evidence_path = os.path.join(C.VERIF, 'evidence', '%s.json' % pid)
+    if os.path.realpath(C.REPO) != '/repo':
+        # a run against a scratch worktree (seeded change, proposed fix): keep evidence/ for /repo itself
+        os.makedirs(os.path.join(C.VERIF, 'evidence', 'scratch'), exist_ok=True)
+        evidence_path = os.path.join(C.VERIF, 'evidence', 'scratch', '%s.json' % pid)
 
     if args.replay:
         rep = json.load(open(args.replay))
